@@ -30,7 +30,7 @@ T = {
         text="Every representation (noncontiguous with 4 dense depths, contiguous with 6 dense-depth/byte-class settings, DFA with 3 start kinds x byte classes, with/without prefilter) is shown observationally equivalent to the same specification automaton on its entire reachable product, hence to each other for haystacks of every length; API-level calls through all seven kinds/entry levels are validated against the oracle.",
         ref="6 C04"),
     "C05": dict(
-        tech="TLA+ decomposition checked with TLC: ACPrefilterMC (every admissible start-byte / rare-byte / memmem / packed prefilter answers every probe soundly) + ACSearch/ACOverlap with an abstract prefilter that may return ANY sound candidate; TLC trace validation of direct probes of the real prefilters, of which variant was built, and of prefilter on/off searches",
+        tech="TLA+ decomposition checked with TLC: ACPrefilterMC (every admissible start-byte / rare-byte / memmem / packed prefilter answers every probe soundly) + ACSearch/ACOverlap with an abstract prefilter that may return ANY sound candidate; action-level trace validation (TraceSearch, hook H5) of every prefilter answer given during recorded searches; TLC trace validation of direct probes of the real prefilters, of which variant was built, and of prefilter on/off searches",
         text="Model: (admissible => sound) for all parameter choices within bounds, and the search/overlapping loops are correct for every sound candidate at every probe, so transparency holds for whatever the byte-frequency heuristic picks. Implementation: the variant actually built is read from the public Debug output, its direct find_in answers on generated haystacks/spans must be sound (property level) and equal the model's candidate (drift level), and searches with the option on and off are both validated against the oracle on haystacks up to 120/300 bytes with planted candidate bytes.",
         ref="6 C05"),
     "C06": dict(
@@ -74,9 +74,9 @@ T = {
         text="With MaxFaults=1 the model lets the reader fail at any read and the writer/closure at any emission; ChunkConcat/MatchPrefix/Indices hold in every reachable state including the failed ones and `done` requires a reader-reported end. Real runs with a failure injected at every read index and every emission index (short streams, exhaustive) and random positions (longer) must end with an error (never a panic) and replay through the specification.",
         ref="6 C18", note=TRUST + "; hook H1 only"),
     "C19": dict(
-        tech="TLA+ spec ACSearch with transition / failure-step counters and the invariants WorkBound, PositionMonotone, FailShortens model-checked with TLC; TLC trace validation of the real counters (hooks) per call on adversarial pattern families",
+        tech="TLA+ spec ACSearch with transition / failure-step counters and the invariants WorkBound, PositionMonotone, FailShortens model-checked with TLC; TLC trace validation of the real counters (hooks) per call on adversarial pattern families; action-level trace validation (TraceSearch) of every transition offset and prefilter answer of recorded searches against ACSearch",
         text="In the model every step consumes one byte, fails + depth(state) <= transitions and every failure link strictly shortens, for all configurations within bounds (incl. prefilter skips). On the real code the hook counters of each call must satisfy transitions <= span length, failure steps <= transitions (0 for a DFA) - property level - and equal the model's exact counts where no prefilter is involved - drift level; a watchdog turns a non-terminating failure walk into a recorded panic.",
-        ref="6 C19", note=TRUST + "; hooks H2/H4 (thread-local counters in the search loops and in both NFA next_state failure loops, cfg aho_corasick_verif)"),
+        ref="6 C19", note=TRUST + "; hooks H2/H4 (thread-local counters in the search loops and in both NFA next_state failure loops) and H5 (step recorder), cfg aho_corasick_verif"),
     "C15": dict(
         tech="TLA+ invariants LoadInBounds / MatchInSpan of ACPacked model-checked with TLC; exploration of the real code in a child process on haystacks placed flush against PROT_NONE pages (both sides), every crash attributed to its input; TLC validation of well-formedness (start <= end <= len, id < n) of every recorded match",
         text="The specification contributes the in-bounds window arithmetic for all lengths with small vector widths; the implementation is explored: all search/replace APIs with every prefilter variant and every packed variant on haystacks of each length 0..104 ending at (resp. starting after) an inaccessible page, with random bytes and patterns cut off by the end of the haystack. A SIGSEGV/SIGBUS/abort or a panic is a violation; all results are additionally validated against the oracle.",
@@ -136,6 +136,8 @@ def main():
         "engines": [
             {"name": "tlc", "path": "/verif/spec", "serves_properties": [c["property_id"] for c in checks],
              "kind_free_text": "explicit TLA+ specification (spec/*.tla) model-checked with TLC; product exploration and trace validation of the real implementation by TLC; orchestrated by bin/check"},
+            {"name": "apalache", "path": "/verif/spec/ACBufferIdx.tla", "serves_properties": ["C07", "C08"],
+             "kind_free_text": "one integer TLA+ model (roll-buffer index arithmetic) whose inductive invariant is discharged symbolically by Apalache, next to the TLC checks of the same properties"},
         ],
         "checks": checks,
         "not_applicable": na,
